@@ -148,7 +148,8 @@ class C18(Plugin):
             "graph.query with the custom processor; the first query also through Flask GET and POST and FastAPI GET; 12 Accept headers from an "
             "RFC 7231 generator over supported, synonym and unsupported media types with q-values, parameters, upper-case Q and optional "
             "whitespace, missing and empty headers; the SPARQL algebra trees of ten query shapes (the four placements, UNION, OPTIONAL with an inner VALUES, "
-            "sub-select, two VALUES clauses, multi-variable VALUES, ASK) as rdflib translates them, before and after the implementation's _optimize_node). Non-trivial: a recognised URI whose record has >= 2 URI prefixes, or a header with >= 2 types.")
+            "sub-select, two VALUES clauses, multi-variable VALUES, ASK) as rdflib translates them, before and after the implementation's _optimize_node; "
+            "graph.triples called directly with 16 patterns per query URI (subject / object / both / neither bound x the query's predicate, another configured one, one that is not configured, a variable predicate) and compared triple by triple, in order, with the model's `triples`). Non-trivial: a recognised URI whose record has >= 2 URI prefixes, or a header with >= 2 types.")
     assumptions = ["rdflib's SPARQL parser / evaluator, result serialisers and the web stacks are runtime: exercised, not modelled",
                    "FastAPI POST cannot be exercised (python-multipart is not installed; a harness-local import stub enables the GET route only)",
                    "q-values have at most 3 decimals, where float comparison equals rational comparison"]
@@ -238,7 +239,15 @@ class C18(Plugin):
                     a = ["<error " + type(e).__name__ + ">", []]
                 before.append(b)
                 after.append(a)
-        case = [recs, "".join(sorted(ch for ch in used if ch in _invalid_uri_chars)), queries, headers, renderings, early, before, pk]
+        # the triple patterns handed to graph.triples directly: for every query URI u and the query's predicate p (plus a predicate
+        # that is not configured and a variable predicate) -- subject bound, object bound, both, neither
+        pats = []
+        for qi, (u, is_pred) in enumerate(queries):
+            for pp in dict.fromkeys([pred_of(qi, is_pred), pred_of(qi + 1, 1), other_p, None]):
+                pats += [[u, pp, None], [None, pp, u], [u, pp, u], [None, pp, None]]
+        enc = lambda x: None if x is None else Some(x)
+        case = [recs, "".join(sorted(ch for ch in used if ch in _invalid_uri_chars)), queries, headers, renderings, early, before, pk,
+                [list(configured), [[enc(a), enc(b), enc(c_)] for a, b, c_ in pats]]]
 
         qa = []
         web_checked = False
@@ -288,7 +297,14 @@ class C18(Plugin):
                         v = f"<{name} content-type {got}>"
                         break
             ha.append(None if v is None else Some(v))
-        return case, [qa, ha, after]
+        tr = []
+        term = lambda x: None if x is None else rdflib.URIRef(x)
+        for a, b, c_ in pats:
+            try:
+                tr.append([[str(x) if isinstance(x, rdflib.URIRef) else f"<not an IRI term: {x!r}>" for x in t] for t in graph.triples((term(a), term(b), term(c_)))])
+            except Exception as e:
+                tr.append([["<error " + type(e).__name__ + ">", "", ""]])
+        return case, [qa, ha, after, tr]
 
     def in_domain(self, case):
         # the quantifier: URI prefixes that are IRI text (the generator's are http(s) URLs); the shrinker stays there
